@@ -13,7 +13,12 @@ Lemmas:
      names, line numbers below 2^32-1) and any table sequence allowed by u14 (`tables_ok`), `built(recs, true)` and `w_flush(w_run(ts, recs))` have the
      same class keys and, under every key, related class fields and the same abstract entries at the same positions -- per method name and per
      (method name, arguments).
-ASSUMED: the string-table round trip of watto for the strings of the records (`resolves`: an offset handed out reads back the string from the
+  4. sortedness of what is handed to the tail (what the reader's binary searches need): the class records the tail emits are STRICTLY sorted by the
+     obfuscated names the string section resolves, and within every collected class the member records are sorted by resolved method name
+     (groups of a BTreeMap in key order, flattened: `lemma_flat_groups_sorted`). Not written: the (name, params) order of the by-params records,
+     string interning among a class's members.
+ASSUMED: BTreeMap<&str, V> iterates in strictly ascending key order and `vals` are its values in that order (std);
+the string-table round trip of watto for the strings of the records (`resolves`: an offset handed out reads back the string from the
 final table's bytes; offsets below 2^32-1).
 """
 import re
@@ -291,6 +296,243 @@ pub proof fn lemma_mapper_and_cache_writer_collect_the_same_entries<'s>(ts: Seq<
     }
 }
 
+
+// ======== the class section the writer emits is strictly sorted by the names the string section resolves (what the reader's binary search needs) ========
+// every finished class of the mapper fold sits under its own obfuscated name and has a non-empty original name
+pub proof fn lemma_done_keys<'s>(recs: Seq<ProguardRecord<'s>>, n: int)
+    requires 0 <= n <= recs.len(),
+    ensures forall|k: &'s str| #[trigger] run(recs, true, n).done.contains_key(k) ==> run(recs, true, n).done[k].obfuscated == k && run(recs, true, n).done[k].original@.len() > 0,
+    decreases n
+{
+    if n > 0 {
+        lemma_done_keys(recs, n - 1);
+        let a = run(recs, true, n - 1); let a1 = run(recs, true, n);
+        assert forall|k: &'s str| #[trigger] a1.done.contains_key(k) implies a1.done[k].obfuscated == k && a1.done[k].original@.len() > 0 by {
+            match recs[n - 1] {
+                ProguardRecord::Class { original, obfuscated } => { if a.cur.original@.len() > 0 && k == a.cur.obfuscated { } else { assert(a.done.contains_key(k)); } },
+                _ => { assert(a.done.contains_key(k)); },
+            }
+        }
+    }
+}
+// ASSUMED (std): BTreeMap<&str, V> iterates in strictly ascending key order; `vals` are the values in that order
+pub uninterp spec fn keys_of<V>(m: BTreeMap<&str, V>) -> Seq<&str>;
+#[verifier::external_body]
+pub proof fn axiom_btree_str_order<V>(m: BTreeMap<&str, V>)
+    ensures
+        keys_of(m).len() == vals(m).len(),
+        forall|i: int| 0 <= i < keys_of(m).len() ==> bmap(m).contains_key(#[trigger] keys_of(m)[i]) && bmap(m)[keys_of(m)[i]] == vals(m)[i],
+        forall|i: int, j: int| 0 <= i < j < keys_of(m).len() ==> seq_cmp((#[trigger] keys_of(m)[i])@, (#[trigger] keys_of(m)[j])@) == Ordering::Less,
+{}
+pub open spec fn emitted_classes(cs: Seq<ClassInProgress>, n: int) -> Seq<Class> { Seq::new(n as nat, |i: int| emitted_class(cs, i)) }
+
+pub proof fn lemma_emitted_class_section_is_strictly_sorted<'s>(ts: Seq<StringTable>, recs: Seq<ProguardRecord<'s>>, classes: BTreeMap<&'s str, ClassInProgress<'s>>)
+    requires
+        tables_ok(ts, recs, recs.len() as int), recs_ok(ts[recs.len() as int], recs),
+        // what unit u14 proves about the collection loop
+        abs_done(bmap(classes)) == w_flush(w_run(ts, recs, recs.len() as int).done, w_run(ts, recs, recs.len() as int).cur),
+    ensures
+        /*@L:emitted_classes_are_strictly_sorted_by_resolved_obfuscated_name:C09,C02,C04*/
+        classes_sorted(table_bytes(ts[recs.len() as int]), emitted_classes(vals(classes), vals(classes).len() as int)),
+{
+    let nn = recs.len() as int; let tn = ts[nn]; let sb = table_bytes(tn);
+    let cs = vals(classes); let ks = keys_of(classes);
+    lemma_mapper_and_cache_writer_collect_the_same_entries(ts, recs);
+    lemma_done_keys(recs, nn);
+    axiom_btree_str_order(classes);
+    let m = built(recs, true); let w = w_flush(w_run(ts, recs, nn).done, w_run(ts, recs, nn).cur);
+    let a = run(recs, true, nn);
+    let ec = emitted_classes(cs, cs.len() as int);
+    assert forall|i: int| 0 <= i < cs.len() implies tbl(sb, (#[trigger] ec[i]).obfuscated_name_offset) == Some(ks[i]@) by {
+        let k = ks[i];
+        assert(bmap(classes).contains_key(k) && bmap(classes)[k] == cs[i]);
+        assert(abs_done(bmap(classes)).contains_key(k) && abs_done(bmap(classes))[k] == abs_cip(cs[i]));
+        assert(w.contains_key(k) && m.contains_key(k));
+        assert(rel_class(tn, m[k], w[k]));
+        // the mapper's class under key k has obfuscated name k and a non-empty original name
+        if a.cur.original@.len() > 0 && k == a.cur.obfuscated { assert(m[k] == a.cur); } else { assert(a.done.contains_key(k)); assert(m[k] == a.done[k]); }
+        assert(m[k].obfuscated == k && m[k].original@.len() > 0);
+        assert(w[k].class == cs[i].class);
+        assert(ec[i].obfuscated_name_offset == cs[i].class.obfuscated_name_offset);
+    }
+    assert forall|i: int, j: int| 0 <= i < j < ec.len() implies
+        seq_cmp(tbl(sb, (#[trigger] ec[i]).obfuscated_name_offset).unwrap(), tbl(sb, (#[trigger] ec[j]).obfuscated_name_offset).unwrap()) == Ordering::Less by {
+        assert(tbl(sb, ec[i].obfuscated_name_offset) == Some(ks[i]@)); assert(tbl(sb, ec[j].obfuscated_name_offset) == Some(ks[j]@));
+    }
+}
+
+
+// ======== within every collected class, the member records are sorted by (resolved) method name, the by-params records by (name, params) ========
+pub open spec fn cip_names_ok<'s>(tn: StringTable, w: ACip<'s>) -> bool {
+    let sb = table_bytes(tn);
+    &&& forall|k: &'s str, i: int| 0 <= i < (w.members)(k).len() ==> tbl(sb, (#[trigger] (w.members)(k)[i]).obfuscated_name_offset) == Some(k@)
+    &&& forall|k: &'s str, p: &'s str, i: int| 0 <= i < (w.by)((k, p)).len() ==>
+            tbl(sb, (#[trigger] (w.by)((k, p))[i]).obfuscated_name_offset) == Some(k@) && tbl(sb, (w.by)((k, p))[i].params_offset) == Some(p@)
+}
+pub open spec fn names_state<'s>(tn: StringTable, w: AWState<'s>) -> bool {
+    cip_names_ok(tn, w.cur) && forall|k: &'s str| #[trigger] w.done.contains_key(k) ==> cip_names_ok(tn, w.done[k])
+}
+pub open spec fn rec_names_ok<'s>(tn: StringTable, rec: ProguardRecord<'s>) -> bool {
+    match rec {
+        ProguardRecord::Method { ty, original, obfuscated, arguments, original_class, line_mapping } => resolves(tn, obfuscated@) && resolves(tn, arguments@),
+        _ => true,
+    }
+}
+pub open spec fn recs_names_ok<'s>(tn: StringTable, recs: Seq<ProguardRecord<'s>>) -> bool { forall|i: int| 0 <= i < recs.len() ==> rec_names_ok(tn, #[trigger] recs[i]) }
+
+pub proof fn lemma_names_step<'s>(tn: StringTable, w: AWState<'s>, tf: StringTable, rec: ProguardRecord<'s>, next: Option<&ProguardRecord<'s>>)
+    requires names_state(tn, w), stable(tf, tn), rec_names_ok(tn, rec), strings_in(tf, rec),
+    ensures names_state(tn, w_step(w, tf, rec, next)),
+{
+    let w1 = w_step(w, tf, rec, next);
+    let sb = table_bytes(tn);
+    match rec {
+        ProguardRecord::Header { key, value } => {
+            assert forall|k: &'s str, i: int| 0 <= i < (w1.cur.members)(k).len() implies tbl(sb, (#[trigger] (w1.cur.members)(k)[i]).obfuscated_name_offset) == Some(k@) by { assert((w1.cur.members)(k) == (w.cur.members)(k)); }
+            assert forall|k: &'s str, p: &'s str, i: int| 0 <= i < (w1.cur.by)((k, p)).len() implies
+                tbl(sb, (#[trigger] (w1.cur.by)((k, p))[i]).obfuscated_name_offset) == Some(k@) && tbl(sb, (w1.cur.by)((k, p))[i].params_offset) == Some(p@) by { assert((w1.cur.by)((k, p)) == (w.cur.by)((k, p))); }
+        },
+        ProguardRecord::Class { original, obfuscated } => {
+            assert forall|k: &'s str, i: int| 0 <= i < (w1.cur.members)(k).len() implies tbl(sb, (#[trigger] (w1.cur.members)(k)[i]).obfuscated_name_offset) == Some(k@) by { assert((w1.cur.members)(k) == Seq::<Member>::empty()); }
+            assert forall|k: &'s str, p: &'s str, i: int| 0 <= i < (w1.cur.by)((k, p)).len() implies
+                tbl(sb, (#[trigger] (w1.cur.by)((k, p))[i]).obfuscated_name_offset) == Some(k@) && tbl(sb, (w1.cur.by)((k, p))[i].params_offset) == Some(p@) by { assert((w1.cur.by)((k, p)) == Seq::<Member>::empty()); }
+            assert forall|k: &'s str| #[trigger] w1.done.contains_key(k) implies cip_names_ok(tn, w1.done[k]) by {
+                if w.cur.name@.len() > 0 && k == w.cur.name { } else { assert(w.done.contains_key(k)); }
+            }
+        },
+        ProguardRecord::Method { ty, original, obfuscated, arguments, original_class, line_mapping } => {
+            let ss = strings_of(rec);
+            assert(ss[0] == obfuscated@ && ss[2] == arguments@);
+            assert(offset_of(tf, obfuscated@) is Some && offset_of(tf, arguments@) is Some);
+            let m = stored_member(line_mapping, tf, obfuscated, original, original_class, arguments, w.cur.class.file_name_offset);
+            assert(tbl(sb, m.obfuscated_name_offset) == Some(obfuscated@) && tbl(sb, m.params_offset) == Some(arguments@));
+            assert forall|k: &'s str, i: int| 0 <= i < (w1.cur.members)(k).len() implies tbl(sb, (#[trigger] (w1.cur.members)(k)[i]).obfuscated_name_offset) == Some(k@) by {
+                if k == obfuscated { if i < (w.cur.members)(k).len() { assert((w1.cur.members)(k)[i] == (w.cur.members)(k)[i]); } } else { assert((w1.cur.members)(k) == (w.cur.members)(k)); }
+            }
+            assert forall|k: &'s str, p: &'s str, i: int| 0 <= i < (w1.cur.by)((k, p)).len() implies
+                tbl(sb, (#[trigger] (w1.cur.by)((k, p))[i]).obfuscated_name_offset) == Some(k@) && tbl(sb, (w1.cur.by)((k, p))[i].params_offset) == Some(p@) by {
+                if (w1.cur.by)((k, p)) == (w.cur.by)((k, p)) { } else {
+                    assert((k, p) == (obfuscated, arguments));
+                    if i < (w.cur.by)((k, p)).len() { assert((w1.cur.by)((k, p))[i] == (w.cur.by)((k, p))[i]); }
+                }
+            }
+        },
+        _ => {},
+    }
+}
+pub proof fn lemma_names_run<'s>(ts: Seq<StringTable>, recs: Seq<ProguardRecord<'s>>, n: int)
+    requires tables_ok(ts, recs, recs.len() as int), recs_names_ok(ts[recs.len() as int], recs), 0 <= n <= recs.len(),
+    ensures names_state(ts[recs.len() as int], w_run(ts, recs, n)),
+    decreases n
+{
+    let nn = recs.len() as int; let tn = ts[nn];
+    if n > 0 {
+        lemma_names_run(ts, recs, n - 1);
+        lemma_tables_stable(ts, recs, nn, n);
+        assert(table_grew(ts[n - 1], ts[n], strings_of(recs[n - 1])));
+        assert(rec_names_ok(tn, recs[n - 1]));
+        lemma_names_step(tn, w_run(ts, recs, n - 1), ts[n], recs[n - 1], next_of(recs, n));
+    }
+}
+// groups in ascending key order, every record of group g carrying the name of key g => the concatenation is sorted by name
+pub open spec fn group_of(groups: Seq<Vec<Member>>, x: int) -> int
+    decreases groups.len()
+{
+    if groups.len() == 0 { 0 } else if x < flat(groups.drop_last()).len() { group_of(groups.drop_last(), x) } else { groups.len() - 1 }
+}
+pub proof fn lemma_group_of(groups: Seq<Vec<Member>>, x: int)
+    requires 0 <= x < flat(groups).len(),
+    ensures 0 <= group_of(groups, x) < groups.len(),
+        exists|i: int| 0 <= i < groups[group_of(groups, x)]@.len() && flat(groups)[x] == #[trigger] groups[group_of(groups, x)]@[i],
+    decreases groups.len()
+{
+    if groups.len() > 0 {
+        let g0 = groups.drop_last(); let f0 = flat(g0); let last = groups.last()@;
+        assert(flat(groups) == f0 + last);
+        if x < f0.len() {
+            lemma_group_of(g0, x);
+            let g = group_of(g0, x);
+            let i = choose|i: int| 0 <= i < g0[g]@.len() && f0[x] == #[trigger] g0[g]@[i];
+            assert(g0[g] == groups[g]);
+            assert(flat(groups)[x] == groups[g]@[i]);
+        } else {
+            let i = x - f0.len();
+            assert(flat(groups)[x] == last[i]);
+            assert(groups[groups.len() - 1]@[i] == last[i]);
+        }
+    }
+}
+pub proof fn lemma_group_of_monotone(groups: Seq<Vec<Member>>, x: int, y: int)
+    requires 0 <= x <= y < flat(groups).len(),
+    ensures group_of(groups, x) <= group_of(groups, y),
+    decreases groups.len()
+{
+    if groups.len() > 0 {
+        let g0 = groups.drop_last(); let f0 = flat(g0);
+        assert(flat(groups) == f0 + groups.last()@);
+        if y < f0.len() { lemma_group_of_monotone(g0, x, y); }
+        else if x < f0.len() { lemma_group_of(g0, x); }
+    }
+}
+pub open spec fn name_of(sb: Seq<u8>, m: Member) -> Seq<char> { tbl(sb, m.obfuscated_name_offset).unwrap() }
+pub open spec fn sorted_by_name(sb: Seq<u8>, ms: Seq<Member>) -> bool {      // the reader's `members_sorted` (cache_model.rs), same text
+    (forall|i: int| 0 <= i < ms.len() ==> tbl(sb, (#[trigger] ms[i]).obfuscated_name_offset) is Some)
+    && (forall|i: int, j: int| 0 <= i < j < ms.len() ==> seq_cmp(name_of(sb, #[trigger] ms[i]), name_of(sb, #[trigger] ms[j])) != Ordering::Greater)
+}
+pub proof fn lemma_flat_groups_sorted(sb: Seq<u8>, groups: Seq<Vec<Member>>, names: Seq<Seq<char>>)
+    requires groups.len() == names.len(),
+        forall|g: int, i: int| 0 <= g < groups.len() && 0 <= i < groups[g]@.len() ==> tbl(sb, (#[trigger] groups[g]@[i]).obfuscated_name_offset) == Some(names[g]),
+        forall|g: int, h: int| 0 <= g < h < names.len() ==> seq_cmp(#[trigger] names[g], #[trigger] names[h]) == Ordering::Less,
+    ensures sorted_by_name(sb, flat(groups)),
+{
+    let f = flat(groups);
+    assert forall|x: int| 0 <= x < f.len() implies tbl(sb, (#[trigger] f[x]).obfuscated_name_offset) == Some(names[group_of(groups, x)]) by {
+        lemma_group_of(groups, x);
+        let g = group_of(groups, x);
+        let i = choose|i: int| 0 <= i < groups[g]@.len() && f[x] == #[trigger] groups[g]@[i];
+        assert(tbl(sb, groups[g]@[i].obfuscated_name_offset) == Some(names[g]));
+    }
+    assert forall|x: int, y: int| 0 <= x < y < f.len() implies seq_cmp(name_of(sb, #[trigger] f[x]), name_of(sb, #[trigger] f[y])) != Ordering::Greater by {
+        lemma_group_of(groups, x); lemma_group_of(groups, y); lemma_group_of_monotone(groups, x, y);
+        let g = group_of(groups, x); let h = group_of(groups, y);
+        assert(name_of(sb, f[x]) == names[g] && name_of(sb, f[y]) == names[h]);
+        if g == h { axiom_seq_cmp_total(names[g], names[g]); } else { assert(seq_cmp(names[g], names[h]) == Ordering::Less); }
+    }
+}
+
+pub proof fn lemma_members_of_every_collected_class_are_sorted_by_name<'s>(ts: Seq<StringTable>, recs: Seq<ProguardRecord<'s>>, classes: BTreeMap<&'s str, ClassInProgress<'s>>, key: &'s str)
+    requires
+        tables_ok(ts, recs, recs.len() as int), recs_names_ok(ts[recs.len() as int], recs),
+        abs_done(bmap(classes)) == w_flush(w_run(ts, recs, recs.len() as int).done, w_run(ts, recs, recs.len() as int).cur),   // unit u14
+        bmap(classes).contains_key(key),
+    ensures
+        /*@L:member_records_of_a_class_are_sorted_by_resolved_method_name:C09,C02,C01*/
+        sorted_by_name(table_bytes(ts[recs.len() as int]), flat(vals(bmap(classes)[key].members))),
+{
+    let nn = recs.len() as int; let tn = ts[nn]; let sb = table_bytes(tn);
+    lemma_names_run(ts, recs, nn);
+    let ws = w_run(ts, recs, nn); let w = w_flush(ws.done, ws.cur);
+    let c = bmap(classes)[key];
+    assert(abs_done(bmap(classes)).contains_key(key) && abs_done(bmap(classes))[key] == abs_cip(c));
+    assert(w.contains_key(key));
+    if ws.cur.name@.len() > 0 && key == ws.cur.name { assert(w[key] == ws.cur); } else { assert(ws.done.contains_key(key)); assert(w[key] == ws.done[key]); }
+    assert(cip_names_ok(tn, w[key]));
+    axiom_btree_str_order(c.members);
+    let groups = vals(c.members); let ks = keys_of(c.members);
+    let names = Seq::new(ks.len(), |g: int| ks[g]@);
+    assert forall|g: int, i: int| 0 <= g < groups.len() && 0 <= i < groups[g]@.len() implies tbl(sb, (#[trigger] groups[g]@[i]).obfuscated_name_offset) == Some(names[g]) by {
+        let k = ks[g];
+        assert(bmap(c.members).contains_key(k) && bmap(c.members)[k] == groups[g]);
+        assert((abs_cip(c).members)(k) == vec_at(c.members, k));
+        assert((w[key].members)(k) == groups[g]@);
+        assert(tbl(sb, (w[key].members)(k)[i].obfuscated_name_offset) == Some(k@));
+    }
+    assert forall|g: int, h: int| 0 <= g < h < names.len() implies seq_cmp(#[trigger] names[g], #[trigger] names[h]) == Ordering::Less by {
+        assert(seq_cmp(ks[g]@, ks[h]@) == Ordering::Less);
+    }
+    lemma_flat_groups_sorted(sb, groups, names);
+}
+
 // the hypotheses are satisfiable whenever the table resolves the record's strings (no contradiction hidden in the requires)
 pub proof fn lemma_same_entry_instance(t: StringTable, original: &str)
     requires resolves(t, original@),
@@ -307,7 +549,7 @@ def build():
     import inspect
     u = Unit("u23_same_entry")
     u.raw(HEADER, "header")
-    u.raw("use std::collections::HashMap;\n", "glue")
+    u.raw("use std::collections::{BTreeMap, HashMap, HashSet};\n", "glue")
     st = u.source("src/stacktrace.rs")
     mg = u.source("src/mapping.rs")
     mp = u.source("src/mapper.rs")
@@ -320,9 +562,12 @@ def build():
     extract_struct(u, raw, "Class")
     extract_struct(u, raw, "Member")
     u.raw("}\nuse raw::{Class, Member};\n", "glue")
+    extract_struct_priv(u, raw, "ClassInProgress")
     u.raw(contract("model.rs"), "model (shared Entry / retrace)")
     cache_model = contract("cache_model.rs")
     mapper_model = contract("mapper_model.rs")
+    writer_model = contract("writer_model.rs")
+    std_specs = contract("std_specs.rs")
     w_src = inspect.getsource(u6_writer_step)
     m_src = inspect.getsource(u6_mapper_step)
     pieces = [
@@ -354,6 +599,12 @@ def build():
         cut(w_src, r"pub open spec fn w_header<'d>"), cut(w_src, r"pub open spec fn w_class<'d>"), cut(w_src, r"pub open spec fn table_grew\b"),
         cut(w_src, r"pub open spec fn w_method<'d>"), cut(w_src, r"pub open spec fn w_flush<'d>"), cut(w_src, r"pub open spec fn w_step<'d>"),
         cut(w_src, r"pub open spec fn strings_of<'d>"), cut(w_src, r"pub open spec fn w_run<'d>"), cut(w_src, r"pub open spec fn tables_ok<'d>"),
+        # the concrete side of the writer (BTreeMap views), the emitted class records (u8) and the reader's sortedness predicate (u1)
+        cut(w_src, r"pub uninterp spec fn bmap<K, V>"), cut(w_src, r"pub uninterp spec fn vals<K, V>"), cut(w_src, r"pub open spec fn flat<T>"),
+        cut(w_src, r"pub open spec fn vec_at<K>"), cut(w_src, r"pub open spec fn abs_cip<'d>"), cut(w_src, r"pub open spec fn abs_done<'d>"),
+        cut(writer_model, r"pub open spec fn members_before\b"), cut(writer_model, r"pub open spec fn by_params_before\b"), cut(writer_model, r"pub open spec fn emitted_class\b"),
+        cut(cache_model, r"pub open spec fn classes_sorted\b"),
+        cut(std_specs, r"pub uninterp spec fn seq_cmp\b"), "#[verifier::external_body]\n" + cut(std_specs, r"pub proof fn axiom_seq_cmp_total\b"),
     ]
     u.raw("// ---- definitions cut out of the units / contract files that use them (same text) ----\n" + "".join(pieces), "specifications under comparison")
     u.raw(LEMMA, "lemma")
